@@ -20,7 +20,7 @@ RULE = (
     "processor, an async processor raising before its internal yield and one raising after it, plus fail-on-every-event and fail-at-shutdown, "
     "placed before or after a healthy recorder. Non-trivial = the failing processor actually raised; distinct = digest of (program shape, "
     "runner, failure index, variant, placement)."
-    ' The injected node failure (if any) is of one of five kinds incl. an exception without arguments. Processor objects are plain, unhashable (__eq__ without __hash__) or all-equal; the top-level map may be over an empty list.'
+    ' The injected node failure (if any) is of one of five kinds incl. an exception without arguments. Processor objects are plain, unhashable (__eq__ without __hash__) or all-equal; the top-level map may be over an empty list. Cache dimension: cache-enabled runner, cacheable synchronous-bodied nodes and duplicate map items (a suspending processor must not decide whether a duplicate is a cache hit).'
 )
 ASSUMPTIONS = [
     "healthy recorder's stream is compared exactly (canonical ids) for the sync runner and as a canonical span tree for the async runner, where a yielding failing processor may legitimately shift the interleaving of concurrent siblings",
@@ -38,6 +38,8 @@ def gen_case(rng: random.Random, tier: str) -> dict:
     ext = [e for e in g["ext"] if e not in g["lists"]]
     cfg = gen.gen_async_cfg(rng, allow_hold=False)
     cfg["shuffle"] = None
+    for nd, _d in fns:
+        nd["_c13_cacheable"] = rng.random() < 0.7
     return {
         "graph": g,
         "inputs": inp,
@@ -47,6 +49,9 @@ def gen_case(rng: random.Random, tier: str) -> dict:
         "async": cfg,
         "top_map": rng.choice(ext) if (ext and not g["seeds"] and rng.random() < 0.25) else None,
         "top_map_n": rng.randint(0, 3),  # 0: a map over an empty list (no item runs, no events)
+        # cache-enabled runner (a fresh InMemoryCache per execution), cacheable nodes with synchronous bodies and DUPLICATE map items:
+        # whether a duplicate is served from the cache must not depend on whether a processor suspends while it is notified
+        "cache": rng.random() < 0.3,
         "proc_identity": rng.choice(["plain", "plain", "unhashable", "equal"]),  # processors are ordinary objects: may be unhashable or compare equal
         "tier": tier,
         "plan_seed": rng.randrange(1 << 30),
@@ -79,7 +84,8 @@ def run_case(doc: dict) -> dict:
         def values(graph, _b=base_values, _mp=mp):  # noqa: F811
             v = _b(graph)
             b0 = v.get(_mp, 5)
-            v[_mp] = [(b0 + j) if isinstance(b0, int) else j for j in range(doc["top_map_n"])]
+            dup = 2 if doc.get("cache") else 1  # duplicate items when the cache dimension is on
+            v[_mp] = [(b0 + j // dup) if isinstance(b0, int) else j // dup for j in range(doc["top_map_n"])]
             return v
 
     faults = doc.get("faults") or []
@@ -90,8 +96,18 @@ def run_case(doc: dict) -> dict:
     rng = random.Random(doc["plan_seed"])
     ident = doc.get("proc_identity", "plain")
 
+    use_cache = bool(doc.get("cache"))
+    if use_cache:
+        from hypergraph import InMemoryCache
+        from hgsim.spec import iter_nodes
+
+        g = copy.deepcopy(g)
+        for nd, _d, _p in iter_nodes(g):
+            if nd.get("_c13_cacheable") and nd["kind"] == "fn" and not nd.get("gen"):
+                nd["cache"] = True
+
     def world(mode, procs_factory=None):
-        w = run_world(g, values, mode=mode, cfg=doc["async"] if mode == "async" else None, faults=copy.deepcopy(faults), run_kwargs=dict(kw), op=op, processors_factory=procs_factory)
+        w = run_world(g, values, mode=("async_syncfn" if (use_cache and mode == "async") else mode), cfg=doc["async"] if mode == "async" else None, cache=InMemoryCache() if use_cache else None, faults=copy.deepcopy(faults), run_kwargs=dict(kw), op=op, processors_factory=procs_factory)
         rts.append(w["rt"])
         res["runs"] += 1
         sim_stats(res, w["out"])
@@ -164,7 +180,14 @@ def run_case(doc: dict) -> dict:
                     if canon_events(good.events) != ref_seq:
                         viol.append((f"{mode}:healthy_processor_stream_incomplete_or_changed", {"point": point, "n_ref": n, "n_got": len(good.events)}))
                 else:
-                    if len(good.events) != n or span_tree(good.events) != ref_tree:
+                    if use_cache:
+                        # which of two concurrently running duplicates is the miss and which the hit is a race the processors may
+                        # legitimately shift: the stream must be complete (same events by kind and node), not identically placed
+                        kinds = sorted((type(e).__name__, getattr(e, "node_name", None)) for e in good.events)
+                        same = kinds == sorted((type(e).__name__, getattr(e, "node_name", None)) for e in h0.events)
+                    else:
+                        same = len(good.events) == n and span_tree(good.events) == ref_tree
+                    if not same:
                         viol.append((f"{mode}:healthy_processor_stream_incomplete_or_changed", {"point": point, "n_ref": n, "n_got": len(good.events)}))
                 exp_sd = 1 if n > 0 else 0
                 if good.shutdowns != exp_sd and not (n == 0 and good.shutdowns == 1):  # whether an empty map shuts processors down is not C13's business
@@ -196,7 +219,7 @@ def shrink_candidates(doc: dict):
     if doc.get("only") is None:
         return
     yield from shrink_program(doc)
-    for key, val in (("top_map", None), ("max_iterations", None), ("proc_identity", "plain")):
+    for key, val in (("top_map", None), ("max_iterations", None), ("proc_identity", "plain"), ("cache", False)):
         if doc.get(key) and doc.get(key) != val:
             c = copy.deepcopy(doc)
             c[key] = val
